@@ -88,9 +88,12 @@ CATALOGUE = [
      "                if len(my_mol.bond_descriptors) == 0:", "                if len(my_mol.bond_descriptors) <= 1 and str(self.right_terminal) == \"[]\":", ["C07", "C06"]),
 ]
 
-# behaviour-preserving edits: every check must stay quiet on them (soundness)
+# the fragment handed to attach_other is an object of its own that a caller may hold on to (a sub-agent's seeded change
+# S-C05r6-1 builds molecules from a pool of fragments that way): attaching must not move its descriptors.  Was classed as
+# behaviour-preserving until round 6, because no path inside the library re-uses the fragment.
 BENIGN_ATTACH_DEEPCOPY_DROPPED = ("attach_deepcopy_dropped", S + "mol_gen.py", "        other_bond_descriptors = copy.deepcopy(other.bond_descriptors)\n",
-     "        other_bond_descriptors = list(other.bond_descriptors)\n", ["C10", "C04"])
+     "        other_bond_descriptors = list(other.bond_descriptors)\n", ["C05"])
+CATALOGUE.append(BENIGN_ATTACH_DEEPCOPY_DROPPED)
 
 # behaviour-preserving edits: every check must stay quiet on them (soundness)
 BENIGN_MIRROR_SHALLOW = ("mirror_shallow", S + "molecule.py", "        mirror = copy.deepcopy(self)\n", "        mirror = copy.copy(self)\n", ["C10"])
@@ -102,7 +105,7 @@ BENIGN_FFCACHE_NAMES_MIXED_UP = ("ffcache_names_mixed_up", S + "forcefield_helpe
 BENIGN_FF_LONGEST_RULE_PREF_DROPPED = ("ff_longest_rule_pref_dropped", S + "forcefield_helper.py", "                if len(match_rule) > len(final_match):", "                if False:", ["C20"])
 
 BENIGN = [
-    BENIGN_ATTACH_DEEPCOPY_DROPPED, BENIGN_MIRROR_SHALLOW, BENIGN_FFCACHE_NAMES_MIXED_UP, BENIGN_FF_LONGEST_RULE_PREF_DROPPED,
+    BENIGN_MIRROR_SHALLOW, BENIGN_FFCACHE_NAMES_MIXED_UP, BENIGN_FF_LONGEST_RULE_PREF_DROPPED,
     ("extra_discarded_finalisation", S + "stochastic.py",
      "                finalized_my_mol = finalize_mol(copy.deepcopy(my_mol))\n",
      "                finalize_mol(copy.deepcopy(my_mol))\n                finalized_my_mol = finalize_mol(copy.deepcopy(my_mol))\n", []),
